@@ -358,54 +358,88 @@ func (t *proofTarget) Init(rng *rand.Rand, _ string) error {
 	return nil
 }
 
-// proofDepthBomb builds a proof whose entries nest n internal nodes.
-func proofDepthBomb(rng *rand.Rand, n int, version uint16, maxLen int) []byte {
+// proofChain builds a proof whose entries nest n internal nodes, each one in the given child
+// slot ("leaf" (version 1 only), "left", "right", or "mix" = rotating) of the previous one. The
+// other slots hold nil entries. Entry of an internal node: 01 (full) 01 (internal) 0000 (label bit
+// length 0) 02 (no embedded leaf).
+func proofChain(n int, version uint16, slot string, maxLen int) []byte {
+	internal := []byte{0x01, node.PrefixInternalNode, 0x00, 0x00, node.PrefixNilNode}
+	if n*9+64 > maxLen {
+		n = (maxLen - 64) / 9
+	}
 	var p syncer.Proof
 	p.V = version
-	per := 9
-	if version == 1 {
-		per = 10
-	}
-	if n*per+64 > maxLen {
-		n = (maxLen - 64) / per
-	}
-	internal := []byte{0x01, node.PrefixInternalNode, 0x01, 0x00, 0x80, node.PrefixNilNode}
-	for i := 0; i < n; i++ {
-		p.Entries = append(p.Entries, internal)
-		if version == 1 {
-			p.Entries = append(p.Entries, nil) // leaf child
+	slots := make([]string, n)
+	for i := range slots {
+		slots[i] = slot
+		if slot == "mix" {
+			slots[i] = []string{"left", "right", "leaf"}[i%3]
+		}
+		if slots[i] == "leaf" && version == 0 {
+			slots[i] = "left" // version 0 has no separate leaf entry
 		}
 	}
-	// children of the innermost node and the right children on the way back
-	for i := 0; i < n+1; i++ {
-		p.Entries = append(p.Entries, nil)
-	}
-	if rng.IntN(2) == 0 {
-		// the chain descends through the right child instead: nil left children first
-		p.Entries = p.Entries[:0]
-		for i := 0; i < n; i++ {
-			p.Entries = append(p.Entries, internal)
+	// Pre-order: node, [leaf], left, right. Entries before the nested child on the way down,
+	// entries after it on the way back up.
+	var tail [][]byte
+	for i := 0; i < n; i++ {
+		p.Entries = append(p.Entries, internal)
+		after := 0
+		switch slots[i] {
+		case "leaf":
+			after = 2 // left, right
+		case "left":
 			if version == 1 {
-				p.Entries = append(p.Entries, nil)
+				p.Entries = append(p.Entries, nil) // leaf
+			}
+			after = 1 // right
+		case "right":
+			if version == 1 {
+				p.Entries = append(p.Entries, nil) // leaf
 			}
 			p.Entries = append(p.Entries, nil) // left
 		}
-		p.Entries = append(p.Entries, nil)
+		for k := 0; k < after; k++ {
+			tail = append(tail, nil)
+		}
 	}
-	p.UntrustedRoot.FromBytes([]byte("bomb"))
+	p.Entries = append(p.Entries, nil) // the innermost child
+	p.Entries = append(p.Entries, tail...)
+	p.UntrustedRoot.FromBytes([]byte("chain"))
 	return cbor.Marshal(&p)
+}
+
+var proofChainDepths = []int{127, 128, 129, 130, 131, 200, 500, 1000, 2000, 5000, 10000, 20000}
+var proofChainSlots = []string{"left", "right", "leaf", "mix"}
+
+func proofChainInput(d int, v uint16, slot string, maxLen int) *Input {
+	return &Input{Data: proofChain(d, v, slot, maxLen), Aux: fmt.Sprintf("chain=%s;v=%d;depth=%d", slot, v, d), Op: "proof-nesting-" + slot}
 }
 
 func (t *proofTarget) Gen(rng *rand.Rand) *Input {
 	if rng.IntN(40) == 0 {
-		depths := []int{2, 100, 126, 127, 128, 129, 130, 200, 1000, 10000, 1 << 20}
+		depths := []int{2, 100, 126, 127, 128, 129, 130, 200, 1000, 10000, 20000, 1 << 20}
 		d := depths[rng.IntN(len(depths))]
-		return &Input{Data: proofDepthBomb(rng, d, uint16(rng.IntN(2)), t.MaxLen()), Aux: "0", Op: "proof-depth-bomb"}
+		return proofChainInput(d, uint16(rng.IntN(2)), proofChainSlots[rng.IntN(len(proofChainSlots))], t.MaxLen())
 	}
 	s := t.seeds[rng.IntN(len(t.seeds))]
 	data, op := t.mut.Mutate(rng, s, t.seeds)
 	return &Input{Data: data, Aux: s.Aux, Op: op}
 }
+
+// countingCtx counts the Err() calls: the verifier asks once per invocation.
+type countingCtx struct {
+	context.Context
+	calls int
+}
+
+func (c *countingCtx) Err() error {
+	c.calls++
+	return c.Context.Err()
+}
+
+// maxProofDepth is the verifier's documented nesting bound (syncer/proof.go).
+const maxProofDepth = 128
 
 func (t *proofTarget) verify(p *syncer.Proof, root hash.Hash) error {
 	ctx := context.Background()
@@ -432,6 +466,28 @@ func (t *proofTarget) Exec(in *Input) string {
 	var p syncer.Proof
 	if err := cbor.Unmarshal(in.Data, &p); err != nil {
 		return "decode: " + err.Error()
+	}
+	if slot := auxGet(in.Aux, "chain"); slot != "" {
+		// A pure nesting chain deeper than the bound must be rejected after the verifier has
+		// descended at most maxProofDepth+2 levels; on the way it looks at no more than the
+		// two nil siblings per level. Counted in verifier invocations, not in time.
+		depth := auxInt(in.Aux, "depth")
+		cc := &countingCtx{Context: context.Background()}
+		var pv syncer.ProofVerifier
+		_, err := pv.VerifyProof(cc, p.UntrustedRoot, &p)
+		bound := 3 * (maxProofDepth + 2)
+		if depth > maxProofDepth+1 && len(p.Entries) > depth {
+			switch {
+			case err == nil:
+				return fmt.Sprintf("VIOLATION:nesting-not-bounded/accepted/%s-slot:a version %d proof nesting %d internal nodes through the %s slot was accepted", slot, p.V, depth, slot)
+			case cc.calls > bound:
+				return fmt.Sprintf("VIOLATION:nesting-not-bounded/%s-slot:a version %d proof nesting %d internal nodes through the %s slot was rejected (%v) only after %d verifier invocations (bound %d for a nesting limit of %d)", slot, p.V, depth, slot, err, cc.calls, bound, maxProofDepth)
+			}
+		}
+		if err != nil {
+			return err.Error()
+		}
+		return ""
 	}
 	errTrue := t.verify(&p, t.roots[0])
 	errOwn := t.verify(&p, p.UntrustedRoot)
@@ -979,7 +1035,21 @@ func (t *nodeTarget) FixedPlans(rng *rand.Rand) []fixedPlan {
 }
 
 func (t *proofTarget) FixedPlans(rng *rand.Rand) []fixedPlan {
-	return plainPlans(rng, t.seeds, func(_ int, s *Seed) string { return s.Aux })
+	out := plainPlans(rng, t.seeds, func(_ int, s *Seed) string { return s.Aux })
+	// Nesting chains through every child slot, both proof versions, depths around and far beyond
+	// the bound.
+	var chains []*Input
+	for _, v := range []uint16{0, 1} {
+		for _, slot := range proofChainSlots {
+			if slot == "leaf" && v == 0 {
+				continue
+			}
+			for _, d := range proofChainDepths {
+				chains = append(chains, proofChainInput(d, v, slot, t.MaxLen()))
+			}
+		}
+	}
+	return append(out, newExplicitPlan(len(chains), func(i int) *Input { return chains[i] }))
 }
 
 func (t *writelogTarget) FixedPlans(rng *rand.Rand) []fixedPlan {
